@@ -140,7 +140,7 @@ def slice_dim_indexes(dims):
 def dimension_dicts(scn, cfg=None):
     """the result.dimensions list for a scenario (numeric-array dims are not listed)"""
     dims = copy.deepcopy(scn["dims"])
-    if cfg is not None:
+    if cfg is not None and dims:
         import configs
         ri, ci = slice_dim_indexes(dims)
         if cfg["rows"]["vins"]:
@@ -223,7 +223,23 @@ def build_response(scn, rec, cfg=None):
         "n": sum(flat["counts"]) if flat["counts"] else 0,
         "missing": 0,
     }
-    for k in ("filter_stats", "filtered", "unfiltered", "title"):
-        if k in rec.get("extra", {}):
-            result[k] = rec["extra"][k]
+    f = scn.get("filter")
+    if f:
+        if f.get("style") == "new":
+            w = {"selected": f.get("sel", 0), "other": f.get("oth", 0), "missing": 0}
+            result["filter_stats"] = {
+                "filtered_complete": {"weighted": w, "unweighted": dict(w)},
+                "filtered": {"weighted": dict(w), "unweighted": dict(w)}}
+            if f.get("catdate"):
+                result["filter_stats"]["is_cat_date"] = True
+            # old-style fields are present as well and must lose
+            result["filtered"] = {"unweighted_n": 1, "weighted_n": 1}
+            result["unfiltered"] = {"unweighted_n": 3, "weighted_n": 3}
+        elif f.get("style") == "old":
+            if f.get("null_new"):
+                result["filter_stats"] = {"filtered_complete": {"weighted": None}}
+            result["filtered"] = {"unweighted_n": f.get("fn"), "weighted_n": f.get("fn")}
+            result["unfiltered"] = {"unweighted_n": f.get("un"), "weighted_n": f.get("un")}
+            if f.get("fn") is None:
+                del result["filtered"]
     return {"query": {}, "result": result}
